@@ -34,6 +34,17 @@ type strer struct{}
 
 func (strer) String() string { return "<strer>" }
 
+type htmlerT struct{ s string }
+
+func (h htmlerT) HTML() template.HTML { return template.HTML(h.s) }
+
+type embE struct{ X string }
+type embO struct {
+	*embE
+	Y string
+}
+type dynK struct{ V interface{} }
+
 type docB struct{ ID []byte }
 type docS struct{ Slug []string }
 type docM struct{ ID map[string]int }
@@ -54,6 +65,10 @@ func c04extra() map[string]interface{} {
 		// typed nil / non-nil pointers to printable structs, containers whose element or key type is a
 		// non-empty interface, structs with uncomparable Slug / ID fields (pathFor compares them)
 		"xniltime": (*time.Time)(nil), "xptime": &tm0, "xstringers": []fmt.Stringer{strer{}}, "xerrs": []error{fmt.Errorf("e")}, "xstrmap": map[fmt.Stringer]int{strer{}: 1},
+		// typed nil func, typed nil pointers to types with String() / HTML() VALUE methods, a struct
+		// promoting a field through a nil embedded pointer, a comparable-typed key with an
+		// uncomparable dynamic value
+		"xnilfn": (func() int)(nil), "xnilstrer": (*strer)(nil), "xnilhtmler": (*htmlerT)(nil), "xembed": embO{Y: "y"}, "xpembed": &embO{Y: "y"}, "xdynkey": dynK{V: []int{1}},
 		"xidbytes": docB{ID: []byte{1, 2}}, "xidzero": docB{}, "xslugs": &docS{Slug: []string{"a"}}, "xidmap": docM{ID: map[string]int{"a": 1}}, "xidlist": []interface{}{docB{ID: []byte{3}}},
 	}
 }
@@ -146,6 +161,8 @@ func init() {
 		}
 		for _, x := range xnames {
 			e.c04case("memberx", fmt.Sprintf("<%%= %s.Name %%>", x), false, extra)
+			e.c04case("memberx", fmt.Sprintf("<%%= %s.X %%>|<%%= %s.Y %%>|<%%= %s.V %%>", x, x, x), false, extra)
+			e.c04case("keyx", fmt.Sprintf("<%%= vmm[%s] %%><%% vmm[%s] = 1 %%><%%= vm[%s] %%>", x, x, x), false, extra)
 			e.c04case("memberx", fmt.Sprintf("<%%= %s.String() %%>", x), false, extra)
 			e.c04case("memberx", fmt.Sprintf("<%%= %s.Hello(1) %%>", x), false, extra)
 		}
@@ -158,7 +175,7 @@ func init() {
 		}
 		// callee x argument lists
 		callees := []string{"rec0", "rec1", "rec2", "rec3", "rec4", "rec5", "rec6", "rec7", "rec8", "rec9", "rec10", "rec11", "rec12", "rec13", "rec14", "rec15", "rec16", "rec17", "rec18", "id", "vi", "vs", "vnil", "vxs", "vt0", "undefinedFn", "blk", "blkctx", "cnt", "fail1", "mkhtml"}
-		args := []string{"1", `"a"`, "vnil", "vt", "vxs", "{k: 1}", "vt0", "vp0", "vfl", "vh"}
+		args := []string{"1", `"a"`, "vnil", "vt", "vxs", "{k: 1}", "vt0", "vp0", "vfl", "vh", "nil"}
 		maxA := 2
 		if e.Thorough() {
 			maxA = 3
